@@ -26,7 +26,7 @@ OPTS = {'timeout_ms': 30000}
 def instances(tier, seed):
     out = std_instances(tier, seed)
     out += axis_instances(tier)
-    for cn in (['o1', 't1', 't3'] if tier == 'quick' else ['o1', 'o2', 't1', 't2', 't3', 't4', 'tr']):
+    for cn in (['o1', 't1', 't3', 't5'] if tier == 'quick' else ['o1', 'o2', 't1', 't2', 't3', 't4', 't5', 'tr']):
         out.append(dict(name=f"window:{cn}", family='window', cell=cn, cost=30))
     return out
 
